@@ -202,31 +202,28 @@ def run(ctx, prop, root=None, seed=0, budget=None):
     # wall-clock budget: variants that are not finished by then are reported as not run (never as killed or survived)
     import time
     deadline = time.time() + float(os.environ.get("TYVERIF_SELFTEST_SECONDS", "300"))
-    pool = cf.ProcessPoolExecutor(max_workers=workers)
-    futs = [pool.submit(_run_one, j) for j in jobs]
-    not_run = 0
+    # multiprocessing.Pool rather than concurrent.futures: terminate() is part of its contract, so that stopping at the deadline
+    # with variants still queued neither hangs the interpreter at exit nor kills the executor's management thread
+    import multiprocessing as mp
+    pool = mp.get_context("fork").Pool(workers)
+    received = 0
     try:
-        for fu in futs:
+        it = pool.imap_unordered(_run_one, jobs)
+        while received < len(jobs):
             left = deadline - time.time()
             try:
-                r = fu.result(timeout=max(left, 0.01))
-            except cf.TimeoutError:
-                not_run += 1
-                fu.cancel()
-                continue
-            except Exception:
-                not_run += 1
-                continue
+                r = it.next(timeout=max(left, 0.01))
+            except mp.TimeoutError:
+                break
+            except StopIteration:
+                break
+            received += 1
             if r is not None:
                 results.append(r)
     finally:
-        procs = list((getattr(pool, "_processes", None) or {}).values())
-        pool.shutdown(wait=False, cancel_futures=True)
-        for pr in procs:
-            try:
-                pr.terminate()
-            except Exception:
-                pass
+        pool.terminate()
+        pool.join()
+    not_run = len(jobs) - received
     tally = {}
     for r in results:
         tally[r["outcome"]] = tally.get(r["outcome"], 0) + 1
